@@ -199,6 +199,76 @@ pub fn check_class_method(ctx: &mut Ctx, c: u8, m: u16) {
     }
 }
 
+/// The type field as it appears in bytes 0..2 of messages: built directly (empty, small, and with a
+/// body that overflows the 16-bit length field), and in the responses derived from a parsed request
+/// (`builder_success` / `builder_error`), for this (class, method).
+pub fn check_type_in_messages(ctx: &mut Ctx, c: u8, m: u16, huge: bool) {
+    ctx.eval();
+    let wit = || json!({"kind": "class-method-in-message", "class": c, "method": m, "huge": huge});
+    let want = type_field(c, m);
+    let wb = [(want >> 8) as u8, want as u8];
+    let r = guard(|| {
+        let tid = TransactionId::from(0x1122_3344_5566_7788_99aa_bbccu128);
+        let mt = MessageType::from_class_method(class_from(c), m);
+        let mut out: Vec<(String, Vec<u8>)> = vec![];
+        out.push(("empty message".into(), Message::builder(mt, tid).build()[..2].to_vec()));
+        let filler = vec![0x33u8; 65_000];
+        let sizes: &[usize] = if huge { &[4, 65_000, 65_528, 65_532, 65_536, 65_540, 70_000, 131_072] } else { &[4] };
+        for &body in sizes {
+            // raw attributes adding up to `body` bytes of body (each value at most 65 000 bytes)
+            let mut b = Message::builder(mt, tid);
+            let mut left = body;
+            let mut ty = 0xc200u16;
+            while left >= 4 {
+                let l = (left - 4).min(65_000) & !3usize;
+                let _ = b.add_raw_attribute(stun_types::attribute::RawAttribute::new(stun_types::attribute::AttributeType::new(ty), &filler[..l]));
+                ty += 1;
+                left -= 4 + l;
+            }
+            let bytes = b.build();
+            out.push((format!("build() with a {body}-byte body"), bytes[..2].to_vec()));
+            let mut dest = vec![0xA5u8; bytes.len()];
+            if b.write_into(&mut dest).is_ok() {
+                out.push((format!("write_into() with a {body}-byte body"), dest[..2].to_vec()));
+            }
+        }
+        // responses derived from the parsed request
+        let mut derived: Vec<(&'static str, Option<(u8, u16, Vec<u8>)>)> = vec![];
+        if c == 0 {
+            let req = Message::builder(mt, tid).build();
+            if let Ok(msg) = Message::from_bytes(&req) {
+                let rd = |b: Vec<u8>| Message::from_bytes(&b).ok().map(|r| (class_num(r.class()), r.method(), b[..2].to_vec()));
+                derived.push(("builder_success", rd(Message::builder_success(&msg).build())));
+                derived.push(("builder_error", rd(Message::builder_error(&msg).build())));
+                derived.push(("bad_request", rd(Message::bad_request(&msg).build())));
+                derived.push(("unknown_attributes", rd(Message::unknown_attributes(&msg, &[stun_types::attribute::AttributeType::new(0x7f01)]).build())));
+            }
+        }
+        (out, derived)
+    });
+    match r {
+        Err(p) => ctx.violation("C19", "type-encode-no-panic", "MessageBuilder::build", "", wit, "bytes".into(), format!("panic {} at {}", p.msg, p.loc)),
+        Ok((out, derived)) => {
+            for (how, got) in out {
+                if got != wb {
+                    ctx.violation("C19", "type-field-in-message", "MessageBuilder::{build,write_into}", if how.contains("byte body") && !how.contains(" 4-byte") { "large-body" } else { "" }, wit, format!("{:04x} in bytes 0..2 ({how})", want), hex(&got));
+                    break;
+                }
+            }
+            for (how, got) in derived {
+                let wclass = if how == "builder_success" { 2u8 } else { 3 };
+                let wf = type_field(wclass, m);
+                let ok = matches!(&got, Some((gc, gm, b)) if *gc == wclass && *gm == m && b[..] == [(wf >> 8) as u8, wf as u8]);
+                if !ok {
+                    ctx.violation("C19", "type-field-in-message", "Message::{builder_success,builder_error}", how, wit, format!("class {wclass} method {m:#x} = {wf:04x} via {how}"), format!("{got:x?}"));
+                    break;
+                }
+            }
+            ctx.count("type-fields-in-messages");
+        }
+    }
+}
+
 pub fn check_tid(ctx: &mut Ctx, x: u128) {
     ctx.eval();
     ctx.distinct(hash64(&[3, x as u64, (x >> 64) as u64]));
@@ -325,6 +395,10 @@ pub fn run(ctx: &mut Ctx) {
         for m in 0..4096u16 {
             if ctx.mine(i) {
                 check_class_method(ctx, c, m);
+                // the type field inside real messages; the oversized-body variants (a body of 64 KiB
+                // and more, which the 16-bit length field cannot hold) for a spread of methods
+                let huge = m % 257 == 0 || m == 0xfff || m == 0xffe || m.is_power_of_two();
+                check_type_in_messages(ctx, c, m, huge);
                 if m == 1 || m == 0xfff {
                     ctx.sample("class-method", || {
                         json!({"class": c, "method": m, "type_field": format!("{:04x}", type_field(c, m))})
@@ -420,6 +494,9 @@ pub fn replay(ctx: &mut Ctx, w: &Value) -> Result<(), String> {
             let v = w["value"].as_u64().ok_or("value")? as u16;
             let e = w["extra"].as_u64().unwrap_or(0) as usize;
             check_type_field(ctx, v, e, None);
+        }
+        Some("class-method-in-message") => {
+            check_type_in_messages(ctx, w["class"].as_u64().ok_or("class")? as u8, w["method"].as_u64().ok_or("method")? as u16, w["huge"].as_bool().unwrap_or(true))
         }
         Some("class-method") => {
             check_class_method(ctx, w["class"].as_u64().ok_or("class")? as u8, w["method"].as_u64().ok_or("method")? as u16)
